@@ -74,6 +74,56 @@ pub fn deep_doc(shape: &str, d: usize) -> String {
                 s.push_str(",2]");
             }
         }
+        // long rather than deep: one run of d characters of a kind
+        "ws_run" => {
+            let rep = |s: &mut String, t: &str| (0..d).for_each(|_| s.push_str(t));
+            rep(&mut s, " ");
+            s.push_str("[1");
+            rep(&mut s, "\n");
+            s.push_str(",\t2");
+            rep(&mut s, "\r");
+            s.push(']');
+            rep(&mut s, "\t");
+        }
+        "ws_run_open" => {
+            s.push_str("{\"k\"");
+            (0..d).for_each(|_| s.push(' '));
+        }
+        "long_string" => {
+            s.push_str("[\"");
+            (0..d).for_each(|_| s.push('a'));
+            s.push_str("\",\"");
+            (0..d).for_each(|_| s.push_str("\\n"));
+            s.push_str("\"]");
+        }
+        "long_string_open" => {
+            s.push('"');
+            (0..d).for_each(|_| s.push_str("\\u00e9"));
+        }
+        "long_number" => {
+            s.push_str("[-1");
+            (0..d).for_each(|_| s.push('0'));
+            s.push('.');
+            (0..d).for_each(|_| s.push('5'));
+            s.push_str("e-1");
+            (0..d).for_each(|_| s.push('7'));
+            s.push(']');
+        }
+        "long_number_bad" => {
+            s.push('1');
+            (0..d).for_each(|_| s.push('0'));
+            s.push('.');
+        }
+        "wide_arr" => {
+            s.push_str("[0");
+            (0..d).for_each(|_| s.push_str(",0"));
+            s.push(']');
+        }
+        "wide_obj" => {
+            s.push_str("{\"a\":0");
+            (0..d).for_each(|_| s.push_str(",\"a\":0"));
+            s.push('}');
+        }
         _ => s.push_str("null"),
     }
     s
